@@ -64,7 +64,10 @@ def run_engine_a_property(pid, tier, seed):
         # the bodies of next/next_back/try_from/TryFrom over SYMBOLIC run layouts (all 12 reprs)
         L3.engine_c3(rep, {"C01": ["try_from", "TryFrom"], "C05": ["next", "next_back"],
                            "C02": ["next", "next_back", "try_from", "TryFrom"]}[pid],
-                     3 if tier == "quick" else 5, ht)
+                     3 if tier == "quick" else 5, ht,
+                     # measured: the u128/i128 layout harnesses need > 270 s and 2.6 GB each under
+                     # load; they are part of the thorough tier only
+                     reprs=None if tier != "quick" else ["u8", "i8", "u16", "i16", "u32", "i32", "u64", "i64", "usize", "isize"])
     if pid in ("C03", "C07", "C04"):
         # the table-index arithmetic with SYMBOLIC run layouts (all 12 reprs)
         L1.engine_c2(rep, {"C03": ["as_str_fn"], "C07": ["range_fn"], "C04": ["from_str_fn", "from_str_trait"]}[pid],
